@@ -327,12 +327,20 @@ pub(super) fn find_date_time(
 
                 let valid_iter = valid_transition_times.iter().copied().zip(valid_transitions.iter().copied());
 
+                // Unix time of the transition following the current one
+                let mut next_transition_unix_times = valid_transition_times.iter().copied().skip(1);
+
                 for (transition_unix_time, &(&local_time_type_before, &local_time_type_after, unix_time_before, unix_time_after)) in valid_iter {
+                    let next_transition_unix_time = next_transition_unix_times.next().unwrap_or(i64::MAX);
+
+                    // Two transitions at the same instant delimit an empty period and cancel each other, so they cannot skip any date time
+                    let is_effective = previous_transition_unix_time < transition_unix_time && transition_unix_time < next_transition_unix_time;
+
                     if previous_transition_unix_time <= unix_time_before && unix_time_before < transition_unix_time {
                         found_date_time_list.push(FoundDateTimeKind::Normal(new_datetime(local_time_type_before, unix_time_before)));
                     } else {
                         // Check for a forward transition
-                        if unix_time_before >= transition_unix_time && unix_time_after < transition_unix_time {
+                        if is_effective && unix_time_before >= transition_unix_time && unix_time_after < transition_unix_time {
                             found_date_time_list.push(FoundDateTimeKind::Skipped {
                                 before_transition: DateTime::from_timespec_and_local(transition_unix_time, nanoseconds, local_time_type_before)?,
                                 after_transition: DateTime::from_timespec_and_local(transition_unix_time, nanoseconds, local_time_type_after)?,
